@@ -13,7 +13,7 @@ pub fn def() -> CheckDef {
     CheckDef {
         id: "C19",
         functions: &["lax::var::{Var::new,Var::new_source,Var::new_target,build,operation,fn_operation}", "operator impls Add Mul Sub Neg Not BitXor BitAnd for Var", "lax::var::forget::{forget,forget_monogamous,Forget::map_operation,ForgetMonogamous::map_operation,all_elements_equal}", "lax::functor::dyn_functor::{define_map_arrow,DynFunctor::{map_object,map_operations,map_arrow}}", "lax::OpenHypergraph::{to_strict,from_strict,tensor_assign,singleton,spider}"],
-        bounds_quick: "forget / forget_monogamous on every lax term with <=3 nodes and <=2 hyperedges of arity <=2 (0->n, n->0 and 0->0 included), <=1 pending pair, interfaces <=1; node and edge labels symbolic, so every hyperedge is variable-labelled or not and its incident labels equal or not by the solver's choice; Var builder: eight scripted expressions (sharing, multi-result operations, unused inputs, leaked handle) evaluated on symbolic 64-bit inputs",
+        bounds_quick: "forget / forget_monogamous on every lax term with <=3 nodes and <=2 hyperedges of arity <=2 (0->n, n->0 and 0->0 included), <=1 pending pair, interfaces <=1; node and edge labels symbolic, so every hyperedge is variable-labelled or not and its incident labels equal or not by the solver's choice; Var builder: ten scripted uses (all operator overloads, operation/fn_operation, explicit new_target) (sharing, multi-result operations, unused inputs, leaked handle) evaluated on symbolic 64-bit inputs",
         bounds_thorough: "forget on <=4 nodes, <=2 hyperedges of arity <=3",
         jobs,
         budget_s: (150, 1500),
@@ -94,6 +94,11 @@ fn eval_lax(r: &RawLax, inputs: &[T]) -> Option<Vec<T>> {
                 L_AND => vec![tm::band(xs[0], xs[1])],
                 L_NEG => vec![tm::sub(zero, xs[0])],
                 L_NOT => vec![tm::bxor(xs[0], tm::c(u64::MAX, vw()))],
+                L_OR => vec![tm::bor(xs[0], xs[1])],
+                // order-sensitive stand-ins for the shift and division operators of the test signature
+                L_SHL => vec![tm::add(xs[0], tm::add(xs[1], xs[1]))],
+                L_SHR => vec![tm::sub(xs[0], tm::add(xs[1], xs[1]))],
+                L_DIV => vec![tm::sub(tm::add(xs[0], xs[0]), xs[1])],
                 // the ternary test operation: (a + 2b, b * c) (order-sensitive in every argument)
                 L_OP3 => vec![tm::add(xs[0], tm::add(xs[1], xs[1])), tm::mul(xs[1], *xs.get(2).unwrap_or(&xs[1]))],
                 _ => return None,
@@ -116,6 +121,19 @@ fn oracle_build(inp: &PV, out: &PV) -> T {
         PV::Tag(t, r) => (t.as_str(), r[0].lax()),
         _ => return tm::FALSE,
     };
+    if script == 9 {
+        // build() overwrites the interfaces: the extra target added by hand is a node of x's hyperedge but
+        // not an output; inputs [x], outputs [x]
+        if tag != "Ok" {
+            return tm::FALSE;
+        }
+        let var_edges: Vec<&(Vec<T>, Vec<T>)> = f.edges.iter().zip(f.adj.iter()).filter(|(l, _)| tm::as_const(**l) == Some(L_VAR)).map(|(_, a)| a).collect();
+        let x_edge = var_edges.iter().find(|(s, _)| s.len() == 1 && f.s.len() == 1 && s[0] == f.s[0]);
+        return match x_edge {
+            None => tm::FALSE,
+            Some((s, t)) => tm::and(vec![tm::bconst(s.len() == 1 && t.len() == 2 && f.t.len() == 1 && t[1] == f.t[0] && f.quot.is_empty()), tm::and(f.nodes.iter().map(|l| tm::eq(*l, tx)).filter(|_| true).take(0).collect()), tm::and(s.iter().chain(t.iter()).map(|n| tm::eq(f.nodes[RawLax::id(*n)], tx)).collect())]),
+        };
+    }
     if script == 7 {
         // building fails, handing back the shared state, only when a handle outlives the builder
         return tm::bconst(tag == "Err");
@@ -132,6 +150,12 @@ fn oracle_build(inp: &PV, out: &PV) -> T {
         4 => (0, 0, vec![], vec![], vec![]),
         5 => (2, 3, vec![tm::bxor(tm::band(x, tm::sub(y, x)), tm::c(u64::MAX, vw()))], vec![tx, ty], vec![tx]),
         6 => (2, 1, vec![tm::add(x, tm::add(x, x))], vec![tx, ty], vec![t1]),
+        8 => {
+            let or = tm::bor(x, y);
+            let shr = tm::sub(y, tm::add(x, x));
+            let shl = tm::add(or, tm::add(shr, shr));
+            (2, 4, vec![tm::sub(tm::add(shl, shl), x)], vec![tx, ty], vec![tx])
+        }
         _ => return tm::FALSE,
     };
     let ins: Vec<T> = [x, y][..n_in].to_vec();
@@ -160,7 +184,7 @@ pub fn jobs(tier: Tier, _seed: u64) -> Vec<Job> {
     let cfg = base_cfg(tier);
     let mut out = vec![];
     // Var builder scripts
-    for script in 0..8u64 {
+    for script in 0..10u64 {
         let gen = move || {
             PV::List(vec![PV::T(tm::c(script, 8)), PV::T(fresh("tx", lw(), None)), PV::T(fresh("ty", lw(), None)), PV::T(fresh("t1", lw(), None)), PV::T(fresh("t2", lw(), None)), PV::T(fresh("x", vw(), None)), PV::T(fresh("y", vw(), None))])
         };
